@@ -222,6 +222,110 @@ def check_state(ctx, state, witness, prefix):
     return True
 
 
+def in_place_history(ctx, rng, src, sdl):
+    import py_gql
+    from py_gql.lang import parse
+    from py_gql.schema.transforms import VisibilitySchemaTransform, transform_schema
+
+    from ..ref.refcoerce import to_json_value
+
+    ir = src.ir
+    q = ir.types[ir.query]
+    cands = []
+    for f in q.fields:
+        for a in f.args:
+            t = ir.types.get(S.unwrap(a.type))
+            if t is not None and t.kind == "input" and len(t.input_fields) >= 2 and S.nullable(a.type)[0] == "named":
+                cands.append((f, a, t))
+    if not cands:
+        return
+    f, a, t = rng.choice(cands)
+    hidden = rng.choice([x for x in t.input_fields if not (x.type[0] == "nonnull" and not x.has_default)] or t.input_fields)
+    args = []
+    for b in f.args:
+        if b is a:
+            args.append("%s: $v" % b.name)
+        elif b.type[0] == "nonnull" and not b.has_default:
+            args.append("%s: %s" % (b.name, opgen.value_text(src.sg.input_value_for(b.type))))
+    sub = " { __typename }" if ir.kind(S.unwrap(f.type)) in ("object", "interface", "union") else ""
+    text = "query ($v: %s) { probe: %s(%s)%s }" % (S.type_str(a.type), f.name, ", ".join(args), sub)
+    value = src.sg.input_value_for(a.type, allow_null=False)
+    if isinstance(value, dict):
+        value.pop(hidden.name, None)
+    variables = {"v": to_json_value(value)}
+
+    class Hide(VisibilitySchemaTransform):
+        def is_input_field_visible(self, typename, fieldname):
+            return (typename, fieldname) != (t.name, hidden.name)
+
+    witness = {"schema_sdl": sdl, "document": text, "variables": variables, "hidden_input_field": "%s.%s" % (t.name, hidden.name)}
+
+    def ask(schema, document):
+        r = py_gql.graphql_blocking(schema, document, variables=variables, root=src.binding.root_value(ir.query))
+        return (repr(r.data), sorted(str(e) for e in r.errors))
+
+    ctx.evaluated()
+    try:
+        copy_ = src.schema.clone()
+        document = parse(text)
+        before = ask(copy_, document)
+        Hide().on_schema(copy_)
+        copy_.validate()
+        after = ask(copy_, document)
+        fresh = ask(transform_schema(src.schema, Hide()), parse(text))
+    except Exception as e:
+        ctx.count("in_place_history_not_applicable:%s" % type(e).__name__)
+        return
+    ctx.count("in_place_histories")
+    ctx.mark_nontrivial([sdl, text, "in-place"])
+    if after != fresh:
+        ctx.violation("history:in-place-transform:same-document-answers-differently", witness,
+                      "after in-place transform %r; fresh transform %r; before %r" % (after[1][:2] or after[0][:80], fresh[1][:2] or fresh[0][:80], before[1][:1]))
+
+
+def in_place_renaming_history(ctx, rng, src, sdl):
+    """Same idea with the camel-casing transform, which *replaces* every type it renames members of: a
+    pre-parsed document naming such a type in a type condition is served before and after."""
+    import py_gql
+    from py_gql.lang import parse
+    from py_gql.schema.transforms import CamelCaseSchemaTransform, transform_schema
+
+    ir = src.ir
+    q = ir.types[ir.query]
+    cands = []
+    for f in q.fields:
+        if ir.kind(S.unwrap(f.type)) in ("interface", "union") and not [a for a in f.args if a.type[0] == "nonnull" and not a.has_default]:
+            for o in ir.possible_types(S.unwrap(f.type)):
+                cands.append((f, o))
+    if not cands:
+        return
+    f, o = rng.choice(cands)
+    text = "{ probe: %s { ... on %s { __typename } } }" % (f.name, o)
+    witness = {"schema_sdl": sdl, "document": text, "transform": "CamelCaseSchemaTransform().on_schema(copy)"}
+
+    def ask(schema, document):
+        r = py_gql.graphql_blocking(schema, document, root=src.binding.root_value(ir.query))
+        return (repr(r.data), sorted(str(e) for e in r.errors))
+
+    ctx.evaluated()
+    try:
+        copy_ = src.schema.clone()
+        document = parse(text)
+        ask(copy_, document)
+        CamelCaseSchemaTransform().on_schema(copy_)
+        copy_.validate()
+        after = ask(copy_, document)
+        fresh = ask(transform_schema(src.schema, CamelCaseSchemaTransform()), parse(text))
+    except Exception as e:
+        ctx.count("in_place_history_not_applicable:%s" % type(e).__name__)
+        return
+    ctx.count("in_place_renaming_histories")
+    ctx.mark_nontrivial([sdl, text, "in-place-camel"])
+    if after != fresh:
+        ctx.violation("history:in-place-transform:same-document-answers-differently", witness,
+                      "after in-place transform %r; fresh transform %r" % (after[1][:2] or after[0][:80], fresh[1][:2] or fresh[0][:80]))
+
+
 def run(ctx):
     import py_gql
     from py_gql.exc import SchemaError, SDLError
@@ -261,6 +365,12 @@ def run(ctx):
         except Exception as e:
             ctx.mark_inconclusive("sample query failed on the pristine source: %r" % (e,))
             continue
+
+        # history on one schema object: a copy serves a pre-parsed document, is then transformed *in place*
+        # (the visitor API transform_schema itself uses) and serves the very same Document again; the
+        # answer must be the one a fresh clone-based transform gives
+        in_place_history(ctx, rng, src, sdl)
+        in_place_renaming_history(ctx, rng, src, sdl)
 
         for si in range(5):
             states = [source]
